@@ -47,7 +47,7 @@ var plainProfile = func() Profile {
 // reorderProfile: Reorder'd injectors and wrappers; no interface matching (Reorder only considers exact types)
 var reorderProfile = func() Profile {
 	p := defaultProfile
-	p.PReorder, p.PIface, p.PCacheable, p.PMemoize = 0.3, 0, 0.1, 0.03
+	p.PReorder, p.PIface, p.PCacheable, p.PMemoize = 0.3, 0.06, 0.1, 0.03
 	return p
 }()
 
